@@ -191,23 +191,23 @@ def custom(ctx):
         throws = c[1].count(b"Throw") - (impl["base"][1].count(b"Throw") if base_catchall is not None else 0)
         if extra != 0 or throws < n["sites"]:
             viol.append(dict(key="calltype", what="a nest whose recursive calls are all in tail position is compiled with %d CatchAll calls and %d thrown calls (%d recursive call sites): %s" % (extra, throws, n["sites"], n["text"].replace("@N", "3")),
-                             case=dict(filter=n["text"].replace("@N", "3"), kind="nest-table"), impl=None))
+                             case=dict(filter=n["text"].replace("@N", "3"), kind="nest-table"), impl=None, nest=i))
         if not (isinstance(m, list) and m and m[0] == "forest" and m[1] == "0"):
             stats["table_diff"] += 1
-            disagreements.append(dict(case=dict(filter=n["text"].replace("@N", "3"), kind="table"), impl=["compiles"], model=m))
+            disagreements.append(dict(case=dict(filter=n["text"].replace("@N", "3"), kind="table"), impl=["compiles"], model=m, nest=i))
             continue
         try:
             a = lut.Unfold(l[1].decode("utf-8", "replace"), natives).forest()
         except Exception as e:
             stats["table_diff"] += 1
-            disagreements.append(dict(case=dict(filter=n["text"].replace("@N", "3"), kind="table"), impl=["unreadable", str(e)], model=None))
+            disagreements.append(dict(case=dict(filter=n["text"].replace("@N", "3"), kind="table"), impl=["unreadable", str(e)], model=None, nest=i))
             continue
         b = lut.renumber_model(m)
         if a == b:
             stats["table_equal"] += 1
         else:
             stats["table_diff"] += 1
-            disagreements.append(dict(case=dict(filter=n["text"].replace("@N", "3"), kind="table"), impl=a, model=b))
+            disagreements.append(dict(case=dict(filter=n["text"].replace("@N", "3"), kind="table"), impl=a, model=b, nest=i))
     # (2) the binary under a small stack
     jobs = []
     for i, n in enumerate(nests):
@@ -249,6 +249,20 @@ def custom(ctx):
                              case=dict(filter=j["prog"], kind="tail-run", stdin=j["inp"].decode()), impl=None))
         else:
             stats["heap_ok"] = stats.get("heap_ok", 0) + 1
+    # a table or call type that differs is a broken correspondence; the failing input is a run of that nest that overflows,
+    # answers wrongly or grows: without one the finding is reported as such
+    bad_nests = set()
+    for j, (rc, out, rss, err) in zip(jobs, results):
+        if j["nest"] is not None and (rc != 0 or out.strip() != j["expect"]):
+            bad_nests.add(j["nest"])
+    for (nest, mode, k), (rc, out, rss) in by.items():
+        if k == 1 and nest is not None:
+            rc2, out2, rss2 = by[(nest, mode, 2)]
+            if rc == 0 and rc2 == 0 and rss and rss2 and rss2 - rss > 8192:
+                bad_nests.add(nest)
+    for x in viol + disagreements:
+        if "nest" in x and x["nest"] not in bad_nests:
+            x["noinput"] = True
     rs = [r[2] for r in results if r[2]]
     return dict(stats=stats, evaluations=len(cases) + len(jobs), distinct=distinct, violations=viol, disagreements=disagreements,
                 samples=[dict(nest=nests[0]["text"][:800])], coverage=dict(nests=K, iterations=[N, 2 * N], stack_kb=512, peak_rss_kb_max=max(rs) if rs else 0, peak_rss_kb_min=min(rs) if rs else 0))
